@@ -756,6 +756,9 @@ func init() {
 		lf.raw(fmt.Sprintf("def hbflReloadReplacesRow : Bool := %v\n", wgHbflReplaces(pc)))
 		lf.raw("/-- HbflReload returns right after a failed os.Open of the list file (the row is then left as it was) -/\n")
 		lf.raw(fmt.Sprintf("def hbflMissingFileKeepsRow : Bool := %v\n", wgHbflOpenFailureReturns(pc)))
+		lf.raw("\n/-- ptt.isBannedBy removes the ban record also when it could not be read (`err != nil || now > expireTS`);\n" +
+			"false: only a record that was read and has expired is removed (`err == nil && now > expireTS`) -/\n")
+		lf.raw(fmt.Sprintf("def banCleanupOnReadError : Bool := %v\n", wgBanCleanupOnError(p)))
 		lf.raw("\n/-- ptt.NewPost hands its own user, uid, boardID and bid to DoPostArticle and does nothing else. -/\n")
 		lf.raw(fmt.Sprintf("def newPostDelegates : Bool := %v\n", wgDelegates(p, "NewPost", "DoPostArticle")))
 		lf.raw(fmt.Sprintf("def checkPostPerm2IsPostpermMsg : Bool := %v\n",
@@ -870,4 +873,53 @@ func wgHbflOpenFailureReturns(pc *packages.Package) bool {
 	}
 	fatal("cache.HbflReload: no os.Open of the list file found")
 	return false
+}
+
+// wgBanCleanupOnError: the condition of the `if` in ptt.isBannedBy whose body calls os.Remove.
+//
+//	err == nil && now > expireTS  -> false;   anything that lets a read error through (err != nil || …) -> true.
+func wgBanCleanupOnError(p *packages.Package) bool {
+	fd := wgFunc(p, "isBannedBy")
+	result, found := false, false
+	ast.Inspect(fd.Body, func(n ast.Node) bool {
+		is, ok := n.(*ast.IfStmt)
+		if !ok {
+			return true
+		}
+		removes := false
+		ast.Inspect(is.Body, func(m ast.Node) bool {
+			if c, ok := m.(*ast.CallExpr); ok && wgCallee(c) == "Remove" {
+				removes = true
+			}
+			return true
+		})
+		if !removes {
+			return true
+		}
+		found = true
+		// the clean-up is restricted to readable records iff the condition is a conjunction with `err == nil`
+		guarded := false
+		var conj func(e ast.Expr)
+		conj = func(e ast.Expr) {
+			e = ast.Unparen(e)
+			if b, ok := e.(*ast.BinaryExpr); ok {
+				if b.Op == token.LAND {
+					conj(b.X)
+					conj(b.Y)
+					return
+				}
+				if b.Op == token.EQL && types.ExprString(b.X) == "err" && types.ExprString(b.Y) == "nil" {
+					guarded = true
+				}
+			}
+		}
+		conj(is.Cond)
+		result = !guarded
+		return false
+	})
+	if !found {
+		// no clean-up at all: nothing is removed on a read error
+		return false
+	}
+	return result
 }
